@@ -356,7 +356,7 @@ pub fn encode_vector<B: KeyBuffer>(dimensions: &[f32], buf: &mut B) {
     buf.extend_from_slice(&(dimensions.len() as u32).to_be_bytes());
     for &dim in dimensions {
         let bits = dim.to_bits();
-        let encoded = if dim < 0.0 {
+        let encoded = if dim.is_sign_negative() {
             !bits
         } else {
             bits ^ (1u32 << 31)
@@ -416,7 +416,7 @@ pub fn encode_json<B: KeyBuffer>(json: &JsonValue, buf: &mut B) {
         JsonValue::Bool(true) => buf.push(type_prefix::JSON_TRUE),
         JsonValue::Number(n) => {
             buf.push(type_prefix::JSON_NUMBER);
-            if *n < 0.0 {
+            if n.is_sign_negative() {
                 buf.extend_from_slice(&(!n.to_bits()).to_be_bytes());
             } else {
                 buf.extend_from_slice(&(n.to_bits() ^ (1u64 << 63)).to_be_bytes());
